@@ -101,3 +101,31 @@ Definition iso_test_did (l : list Z) : option iso_req :=
 Definition iso_memloc (na ns addr size : Z) : option bytes :=
   if (1 <=? na) && (na <=? 8) && (1 <=? ns) && (ns <=? 8) && (0 <=? addr) && (addr <? 256 ^ na) && (0 <=? size) && (size <? 256 ^ ns)
   then Some ((16 * ns + na) :: be_enc (Z.to_nat na) addr ++ be_enc (Z.to_nat ns) size) else None.
+
+(* 0x87 LinkControl: SF = type 0..0x7F; type 1: U8 standard baud-rate identifier; type 2: U24 bit rate; other types: nothing.
+   The caller hands a Baudrate(rate, type) object: type 0 = a standard rate, 1 = any rate up to 24 bits, 2 = a standard
+   identifier, 3 = "guess" (standard rate, else one byte = identifier, else specific).  Its meaning is a bit rate and,
+   when the standard has one for it, an identifier (ISO 14229-1 Annex B.3). *)
+Definition iso_baud_ids : list (Z * Z) :=
+  [(9600, 1); (19200, 2); (38400, 3); (57600, 4); (115200, 5); (125000, 16); (250000, 17); (500000, 18); (1000000, 19)].
+Definition iso_id_of_rate (r : Z) : option Z :=
+  match find (fun '(k, _) => k =? r) iso_baud_ids with Some (_, v) => Some v | None => None end.
+Definition iso_rate_of_id (i : Z) : option Z :=
+  match find (fun '(_, v) => v =? i) iso_baud_ids with Some (k, _) => Some k | None => None end.
+Definition iso_baud_meaning (rate ty : Z) : option (Z * option Z) :=
+  if rate <? 0 then None else
+  let ty' := if ty =? 3 then match iso_id_of_rate rate with Some _ => 0 | None => if rate <=? 255 then 2 else 1 end else ty in
+  if ty' =? 0 then match iso_id_of_rate rate with Some i => Some (rate, Some i) | None => None end
+  else if ty' =? 1 then if rate <=? 16777215 then Some (rate, iso_id_of_rate rate) else None
+  else if ty' =? 2 then (if rate <=? 255 then match iso_rate_of_id rate with Some k => Some (k, Some rate) | None => None end else None)
+  else None.
+Definition iso_link_control (ct : Z) (b : option (Z * Z)) : option iso_req :=
+  if in_u ct 127 then
+    match b with
+    | None => if (ct =? 1) || (ct =? 2) then None else ireq "LinkControl" (Some ct) []
+    | Some (rate, ty) =>
+      if ct =? 1 then match iso_baud_meaning rate ty with Some (_, Some i) => ireq "LinkControl" (Some 1) (u8 i) | _ => None end
+      else if ct =? 2 then match iso_baud_meaning rate ty with Some (eff, _) => ireq "LinkControl" (Some 2) (u24 eff) | None => None end
+      else None
+    end
+  else None.
